@@ -1,11 +1,14 @@
 package main
 
 import (
+	"bytes"
 	"go/ast"
 	"go/token"
 	"os"
 	"path/filepath"
+	"regexp"
 	"sort"
+	"strconv"
 	"strings"
 )
 
@@ -148,5 +151,70 @@ func init() {
 				contains(ss, "_, err = gw.Write(l)") && contains(ss, "_, err = gw.Write(b)")
 		}
 		ex.setBool("c19WriterStateLocal", okLocal, wd != nil, "writeDump: the receiver is used only for c.backend.Range(rangeFunc); block, marshaled bytes (fresh slice from proto.Marshal), length header and gzip writer are locals of the call; no package-level variable is referenced - overlapping dumps share nothing but the store")
+	})
+}
+
+// The cache key is binary (getMsgKey: flags, qtype, qclass, length octet,
+// name), so the dump must carry it in a field that takes any octets: proto3
+// `bytes`. A `string` field makes proto.Marshal / Unmarshal fail on every key
+// that is not valid UTF-8. Three places have to agree: dump.proto, the Go
+// field type in dump.pb.go, and the field type in the raw descriptor.
+func init() {
+	factFuncs = append(factFuncs, func(ex *factExtractor) {
+		const dir = "plugin/executable/cache"
+		protoOK, known := false, false
+		if src, err := os.ReadFile(filepath.Join(ex.repo, dir, "dump.proto")); err == nil {
+			known = true
+			if m := regexp.MustCompile(`(?s)message\s+CachedEntry\s*\{(.*?)\}`).FindSubmatch(src); m != nil {
+				protoOK = regexp.MustCompile(`(?m)^\s*bytes\s+key\s*=\s*1\s*;`).Match(m[1]) &&
+					regexp.MustCompile(`(?m)^\s*bytes\s+msg\s*=\s*2\s*;`).Match(m[1])
+			}
+		}
+		goOK, descOK := false, false
+		f := ex.file(filepath.Join(dir, "dump.pb.go"))
+		if f == nil {
+			known = false
+		} else {
+			var desc []byte
+			for _, d := range f.Decls {
+				gd, ok := d.(*ast.GenDecl)
+				if !ok {
+					continue
+				}
+				for _, sp := range gd.Specs {
+					switch x := sp.(type) {
+					case *ast.TypeSpec:
+						st, ok := x.Type.(*ast.StructType)
+						if !ok || x.Name.Name != "CachedEntry" {
+							continue
+						}
+						types := map[string]string{}
+						for _, fl := range st.Fields.List {
+							for _, n := range fl.Names {
+								types[n.Name] = ex.str(fl.Type)
+							}
+						}
+						goOK = types["Key"] == "[]byte" && types["Msg"] == "[]byte"
+					case *ast.ValueSpec:
+						if len(x.Names) != 1 || !strings.HasSuffix(x.Names[0].Name, "dump_proto_rawDesc") || len(x.Values) != 1 {
+							continue
+						}
+						if cl, ok := x.Values[0].(*ast.CompositeLit); ok {
+							for _, e := range cl.Elts {
+								if bl, ok := e.(*ast.BasicLit); ok {
+									if v, err := strconv.ParseUint(bl.Value, 0, 8); err == nil {
+										desc = append(desc, byte(v))
+									}
+								}
+							}
+						}
+					}
+				}
+			}
+			// FieldDescriptorProto{name=1:"key", number=3:1, label=4:1, type=5:TYPE_BYTES(12)}
+			descOK = bytes.Contains(desc, []byte{0x0a, 0x03, 'k', 'e', 'y', 0x18, 0x01, 0x20, 0x01, 0x28, 0x0c}) &&
+				bytes.Contains(desc, []byte{0x0a, 0x03, 'm', 's', 'g', 0x18, 0x02, 0x20, 0x01, 0x28, 0x0c})
+		}
+		ex.setBool("c19KeyFieldIsBytes", protoOK && goOK && descOK, known, "dump.proto / dump.pb.go: CachedEntry.key (and msg) are proto3 `bytes` ([]byte in Go, TYPE_BYTES in the raw descriptor): any octets marshal and unmarshal; a `string` field would reject every key that is not valid UTF-8")
 	})
 }
